@@ -195,6 +195,7 @@ var Exprs = []string{
 	"(x + 1) * 2 / 3 % 4 - 5 == 0",
 	"b\"abc\" == r'raw' && s == \"\"\"tri\nple\"\"\"",
 	"x { y",
+	"", // an empty body is grammatical
 }
 
 // ---- model families ---------------------------------------------------------
